@@ -331,10 +331,10 @@ def check(run, views, tier):
                         ok = a is not None and "Append" in show(a["args"][0])
                         run.ob("R-PRINTGATE", "clap: -o accumulates values", ok, show(a)[:100] if a else "no action", site(ab), key="R-PRINTGATE|clap|options|action")
             run.floor("R-PRINTGATE", n_args, 6, "clap args of the print command")
-        # ---- the readiness helper (C17's rules) ---------------------------------------------------
-        from . import c17
-        sub_views = {cfg: {"ipp": F}}
-        saved = (run.explanation, run.trusted, run.not_decided)
-        c17.check(run, sub_views, tier)
-        run.explanation, run.trusted, run.not_decided = saved
+        # ---- the readiness helper (C17's rules), the blocking client (C11), the target URL (C14) ---------
+        from ..engine import include
+        from . import c11, c14, c17
+        include(run, c17, {cfg: {"ipp": F}}, tier)
+        include(run, c11, {cfg: {"ipp": F}}, tier, "blocking::IppClient::send", "R-CARGO")
+        include(run, c14, {cfg: crates}, tier, "|ipputil::")
         run.cfg = cfg
